@@ -53,6 +53,7 @@ def ledger(tier, seed):
             s = dict(s, world=world, id="%s:%s" % (world, s["id"]))
             scs.append(s)
     scs += gens.ledger(rnd, {"quick": 120, "thorough": 2500}[tier])
+    scs += gens.multisig_wide(rnd, {"quick": 12, "thorough": 120}[tier])
     return scs + regress("ledger")
 
 
